@@ -145,3 +145,5 @@ def run(ctx):
   cl = [a for a in acc if a.store == '_SINGLETONS' and a.func is cc and a.method == 'clear']
   ctx.check(bool(cl), 'C18.key', construct(cc), 'clear_config forgets cached singletons', 'clear_config no longer clears the singleton cache', cc.loc(),
             instance='cleared')
+  from .common import lock_order
+  lock_order(ctx, 'C18.lock-order')
